@@ -804,7 +804,7 @@ func engQuery(e *Env) {
 func bigSumWitness(e *Env, ctx context.Context, x *Nd) {
 	x.addSchema(ctx, `type BigSum { v: Int }`)
 	col := getCol(ctx, x, "BigSum")
-	vals := []int64{9007199254740992, 1, 1, 1}
+	vals := []int64{9007199254740992, 1, 3, 5}
 	exact := int64(0)
 	for _, v := range vals {
 		doc, err := client.NewDocFromJSON([]byte(fmt.Sprintf(`{"v": %d}`, v)), col.Definition())
